@@ -63,6 +63,10 @@ pub struct Bbr {
 impl Bbr {
     /// Construct a state using the given `config` and current time `now`
     pub fn new(config: Arc<BbrConfig>, current_mtu: u16) -> Self {
+        Self::with_rng(config, current_mtu, Pcg32::from_rng(&mut rand::rng()))
+    }
+
+    fn with_rng(config: Arc<BbrConfig>, current_mtu: u16, random_number_generator: Pcg32) -> Self {
         let initial_window = config.initial_window;
         Self {
             config,
@@ -99,7 +103,7 @@ impl Bbr {
             bw_at_last_round: 0,
             round_wo_bw_gain: 0,
             ack_aggregation: AckAggregationState::default(),
-            random_number_generator: Pcg32::from_rng(&mut rand::rng()),
+            random_number_generator,
         }
     }
 
@@ -584,6 +588,15 @@ impl Default for BbrConfig {
 impl ControllerFactory for BbrConfig {
     fn build(self: Arc<Self>, _now: Instant, current_mtu: u16) -> Box<dyn Controller> {
         Box::new(Bbr::new(self, current_mtu))
+    }
+
+    fn build_seeded(
+        self: Arc<Self>,
+        _now: Instant,
+        current_mtu: u16,
+        seed: u64,
+    ) -> Box<dyn Controller> {
+        Box::new(Bbr::with_rng(self, current_mtu, Pcg32::seed_from_u64(seed)))
     }
 }
 
